@@ -24,7 +24,7 @@ RULE = ('history = sequence of operations against a real CourierServer reached t
         'after a shutdown request every answer is the correct value or a retriable TimeoutError; a 60 s watchdog catches hangs); '
         'non-trivial = depth >= 2 with a remote-object hop, or an exception, or a shutdown mid-sequence; distinct = distinct '
         'canonical case JSON'
-        '; also: expressions raising their own TimeoutError, shutdown arriving while a gated request executes (both call paths), async_get_result, the same cached array-argument expression evaluated twice, floods of 255..300 remote objects')
+        '; also: server stopped and started again (restart), expressions raising their own TimeoutError, shutdown arriving while a gated request executes (both call paths), async_get_result, the same cached array-argument expression evaluated twice, floods of 255..300 remote objects')
 ASSUMPTIONS = [
     'the in-process fake transport reproduces courier\'s observable contract (futures, deadline code 4, handler exceptions as status errors)',
     'server and client share one process, so the expected values come from the C17 eager model, not from a second local evaluation',
@@ -222,6 +222,14 @@ def _client_ops(client, ops, model, what, state):
     elif k == 'shutdown':
       state['shutdown'] = True
       state['server']._request_shutdown()  # pylint: disable=protected-access
+    elif k == 'restart':
+      # the server object is stopped and started again: its second life evaluates like its first
+      th = state['server'].stop()
+      th.join(20)
+      check(not th.is_alive(), 'hang', f'{w}: the server thread did not end within 20 s of stop()')
+      state['server'].start()
+      courier_utils.worker_registry().register(state['server'].address, _time.time())
+      state['shutdown'] = False
     elif k == 'inflight_shutdown':
       # the shutdown request arrives while a request is executing on the server; that request then fails (or succeeds):
       # the harness owns the order through a gate inside the evaluated function
@@ -302,7 +310,7 @@ def run_case(case):
     raise crash(e, what)
   hops = sum(r[0] for r in results)
   excs = sum(r[1] for r in results)
-  shut = any(op[0] in ('shutdown', 'inflight_shutdown') for ops in case['clients'] for op in ops)
+  shut = any(op[0] in ('shutdown', 'inflight_shutdown', 'restart') for ops in case['clients'] for op in ops)
   return {'nontrivial': hops >= 1 or excs >= 1 or shut, 'classes': [f'clients-{len(case["clients"])}'] + (['shutdown'] if shut else []) + (
       ['remote-object-hop'] if hops else []) + (['exception'] if excs else [])}
 
@@ -316,7 +324,7 @@ def strat(tier):
     clients = []
     for ci in range(nclients):
       # with several clients, cached expressions would be shared server state: disable caching flags there
-      raising = st.one_of(c17._raising(), st.sampled_from(['lock not acquired', 'x y']).map(  # pylint: disable=protected-access
+      raising = st.one_of(c17._raising(stop=False), st.sampled_from(['lock not acquired', 'x y']).map(  # pylint: disable=protected-access
           lambda m: {'k': 'call', 'fn': 'raise_timeout_error', 'args': [{'c': m}]}))
       expr = st.one_of(c17._int(3), c17._list(2), raising.map(lambda r: {'k': 'call', 'fn': 'counted_add', 'args': [{'c': 1}, r]}), raising)  # pylint: disable=protected-access
       op = st.one_of(
@@ -340,7 +348,10 @@ def strat(tier):
       ops0[:0] = [['remote_obj', 2], ['remote_obj', 3]]
       ops0.insert(draw(st.integers(2, len(ops0))), ['flood_remote', draw(st.sampled_from([255, 256, 257, 300]))])
       ops0 += [['ro_attr', 0, 'base'], ['ro_attr', 1, 'base'], ['ro_call', 0, 1]]
-    if nclients == 1 and draw(st.integers(0, 3)) == 0:
+    if nclients == 1 and draw(st.integers(0, 5)) == 0:
+      pos = draw(st.integers(0, len(clients[0])))
+      clients[0][pos:pos] = draw(st.sampled_from([[['restart']], [['shutdown'], ['restart']]]))
+    elif nclients == 1 and draw(st.integers(0, 3)) == 0:
       clients[0].insert(draw(st.integers(0, len(clients[0]))), ['shutdown'])
     elif nclients == 1 and draw(st.integers(0, 3)) == 0:
       clients[0].insert(draw(st.integers(0, len(clients[0]))),
